@@ -14,6 +14,14 @@
 // Everything the world does is driven by per-pass scripts; a "pass" is one fetchTail, recognised by
 // its GetLatestSignedLogRoot call.  The observed behaviour is written as a Coq `case` term
 // (coq/Migrillian/MigrateCase.v), and the property's sentence is evaluated on it directly (PropOK).
+//
+// The direct oracle never asks the model what a fault should lead to.  Besides the per-request statements
+// (mirror, beyond, gate, conflict, quota retried / back-off) it reads the run's own claims: Run returning
+// nil, a pass resuming above an index or fetching nothing although the source is ahead, the controller
+// going on after a pass that nothing disturbed, a fatal reply while the caller's context is live; each of
+// them is checked against the destination as it was at that moment (pass-start snapshots), whatever the
+// world injected before.  Two input streams: genCase (everything mixed) and genPerBatch (context live,
+// a fate per batch position, page caps of batch-1).
 
 //go:debug randseednop=0
 package main
@@ -284,6 +292,7 @@ type caseSpec struct {
 	dest0Kind  string
 	scripts    []*passScript
 	seed       int64
+	genTags    []string // generator classes (input-distribution statistics)
 }
 
 // ------------------------------------------------------------------ the simulated world
@@ -316,6 +325,10 @@ type obsPass struct {
 	attempts map[int64]int
 	lastTime map[int64]time.Time
 	srcErrs  map[int64]int64
+	// for the direct oracle's claims (what the run says about itself, whatever was injected)
+	stored0   map[int64]bool // the indices the destination held when the pass began
+	acted     bool           // a scripted cancellation / loss of mastership fired during the pass
+	fatalLive []string       // fatal destination replies delivered while the caller's context was live
 }
 
 type sim struct {
@@ -334,6 +347,7 @@ type sim struct {
 	added      map[int64]bool // indices stored during the run
 	beyond     []string       // direct-oracle notes collected while running
 	seq        int
+	dead       bool // the simulated world has cancelled the caller's context
 }
 
 func (s *sim) cur() *obsPass {
@@ -395,9 +409,14 @@ func (s *sim) GetLatestSignedLogRoot(ctx context.Context, _ *trillian.GetLatestS
 	s.pass++
 	p := newPass()
 	s.passes = append(s.passes, p)
+	p.stored0 = make(map[int64]bool, len(s.dest))
+	for i := range s.dest {
+		p.stored0[i] = true
+	}
 	ps := s.script()
 	if ps == nil {
 		s.overflow = true
+		s.dead, p.acted = true, true
 		s.cancel()
 		return nil, context.Canceled
 	}
@@ -410,9 +429,11 @@ func (s *sim) GetLatestSignedLogRoot(ctx context.Context, _ *trillian.GetLatestS
 	case "nil":
 		return &trillian.GetLatestSignedLogRootResponse{}, nil
 	case "cancel":
+		s.dead, p.acted = true, true
 		s.cancel()
 		return nil, context.Canceled
 	case "lose":
+		p.acted = true
 		s.loseMaster()
 		return nil, context.Canceled
 	}
@@ -469,22 +490,33 @@ func (s *sim) AddSequencedLeaves(ctx context.Context, req *trillian.AddSequenced
 		}
 	}
 	rec.basic, rec.act = rp.basic, rp.act
+	// is the caller's context (for RunWhenMaster: the mastership context too) still live when this reply goes out?
+	live := !s.dead && !p.acted && rp.act == ""
+	fatal := func(what string) {
+		if live {
+			p.fatalLive = append(p.fatalLive, fmt.Sprintf("destination replied %s to batch start=%d attempt=%d", what, start, att))
+		}
+	}
 	switch rp.act {
 	case "cancel":
 		p.abortFault = true
+		s.dead, p.acted = true, true
 		s.cancel()
 	case "lose":
 		p.abortFault = true
+		p.acted = true
 		s.loseMaster()
 	}
 	switch rp.basic {
 	case "nil":
 		p.abortFault = true
 		rec.reply, rec.replyJ = "RpcNil", "nil-response"
+		fatal("(nil, nil)")
 		return nil, nil
 	case "code":
 		if rp.code != int(codes.ResourceExhausted) {
 			p.abortFault = true
+			fatal(codes.Code(rp.code).String())
 		}
 		rec.reply, rec.replyJ = fmt.Sprintf("(RpcCode %d)", rp.code), codes.Code(rp.code).String()
 		return nil, status.Error(codes.Code(rp.code), "injected")
@@ -493,12 +525,14 @@ func (s *sim) AddSequencedLeaves(ctx context.Context, req *trillian.AddSequenced
 	if len(req.Leaves) == 0 {
 		p.abortFault = true
 		rec.reply, rec.replyJ = "(RpcCode 3)", "InvalidArgument(empty)"
+		fatal("InvalidArgument(empty request)")
 		return nil, status.Error(codes.InvalidArgument, "leaves empty")
 	}
 	for i, l := range req.Leaves {
 		if l == nil || l.LeafIndex != start+int64(i) {
 			p.abortFault = true
 			rec.reply, rec.replyJ = "(RpcCode 9)", "FailedPrecondition(indices)"
+			fatal("FailedPrecondition(non-contiguous indices)")
 			return nil, status.Error(codes.FailedPrecondition, "non-contiguous")
 		}
 	}
@@ -1009,6 +1043,12 @@ func genCase(r *mrand.Rand, pool []*poolEntry, id int) *caseSpec {
 				npass++
 			}
 		}
+		if c.batch > 1 && c.batch <= 16 && r.Intn(10) == 0 {
+			// a source whose largest page is one entry short of a batch: every full request is a short read
+			// that stops exactly at the inclusive end of its range minus one
+			pageCap(ps, int64(c.batch-1), cur)
+			c.genTags = append(c.genTags, "pagecap:batch-1")
+		}
 		n := ps.sthSize
 		if n < 0 {
 			n = cur
@@ -1018,9 +1058,225 @@ func genCase(r *mrand.Rand, pool []*poolEntry, id int) *caseSpec {
 		}
 		c.scripts = append(c.scripts, ps)
 	}
+	if c.continuous && r.Intn(2) == 0 {
+		// a quiet pass before the end: what the controller does next shows what it took the last pass for
+		c.scripts = append(c.scripts, settlingPass(r, draw, 4))
+		c.genTags = append(c.genTags, "script:settling-pass")
+	}
 	// continuous runs (and runs that restart) end by cancellation
-	c.scripts = append(c.scripts, &passScript{root: "cancel", sth: "ok", sthSize: -1, cons: "good", integrate: 1000000, forkIdx: -1,
-		short: map[int64]int64{}, srcerr: map[int64]int64{}, replies: map[int64][]dreply{}})
+	c.scripts = append(c.scripts, terminalPass())
+	return c
+}
+
+func blankPass() *passScript {
+	return &passScript{root: "ok", sth: "ok", sthSize: -1, cons: "good", integrate: 1000000, forkIdx: -1,
+		short: map[int64]int64{}, srcerr: map[int64]int64{}, replies: map[int64][]dreply{}}
+}
+
+func terminalPass() *passScript {
+	ps := blankPass()
+	ps.root = "cancel"
+	return ps
+}
+
+// a pass in which the world does nothing but (perhaps) grow the source
+func settlingPass(r *mrand.Rand, draw func() *poolEntry, maxGrow int) *passScript {
+	ps := blankPass()
+	for i, g := 0, r.Intn(maxGrow+1); i < g; i++ {
+		ps.grow = append(ps.grow, draw())
+	}
+	return ps
+}
+
+// the source never returns more than k entries per get-entries request (below size n)
+func pageCap(ps *passScript, k, n int64) {
+	for q := int64(0); q < n; q++ {
+		if v, ok := ps.short[q]; !ok || v > k {
+			ps.short[q] = k
+		}
+	}
+}
+
+var fatalCodes = []codes.Code{codes.Canceled, codes.Unknown, codes.InvalidArgument, codes.DeadlineExceeded, codes.NotFound,
+	codes.AlreadyExists, codes.PermissionDenied, codes.FailedPrecondition, codes.Aborted, codes.OutOfRange,
+	codes.Unimplemented, codes.Internal, codes.Unavailable, codes.DataLoss, codes.Unauthenticated}
+
+// genPerBatch: the second input stream.  The caller's context stays live throughout (no scripted
+// cancellation, no loss of mastership before the end); the tail of every pass consists of several batches,
+// and each batch position draws its own fate: accepted, a run of quota replies (must be retried), a
+// transient source error (must be retried), a fatal destination reply (must end the pass with an error).
+// One pass carries a designated fault class at a designated position (first / middle / last batch / every
+// batch) so that the grid class x position x mode is covered whatever the seed; the source may cap its
+// pages at batch-1 entries (or another size), which makes every full request a short read.
+func genPerBatch(r *mrand.Rand, pool []*poolEntry, id int) *caseSpec {
+	var okPool []*poolEntry
+	for _, e := range pool {
+		if e.buildable {
+			okPool = append(okPool, e)
+		}
+	}
+	draw := func() *poolEntry { return okPool[r.Intn(len(okPool))] }
+	c := &caseSpec{seed: r.Int63(), start: -1}
+	c.ep = pick(r, "Run", "RunWhenMaster")
+	c.continuous = r.Intn(2) == 0
+	c.batch = pick(r, 2, 2, 3, 4, 5, 8, 1)
+	c.fetchers, c.submitters = 1, 1
+	if r.Intn(4) == 0 {
+		c.fetchers = pick(r, 1, 2, 4)
+		c.submitters = pick(r, 1, 2, 3)
+	}
+	c.chanSize = pick(r, 0, 0, 1, 4)
+	c.nocheck = r.Intn(12) == 0
+	c.idf = pick(r, configpb.IdentityFunction_SHA256_CERT_DATA, configpb.IdentityFunction_SHA256_LEAF_INDEX)
+	B := int64(c.batch)
+	// destination: empty or a prefix; the tail has 2..5 batches and, perhaps, a partial last one
+	d0 := int64(0)
+	if r.Intn(2) == 0 {
+		d0 = 1 + r.Int63n(2*B)
+	}
+	n0 := d0 + int64(2+r.Intn(4))*B
+	if B > 1 && r.Intn(2) == 0 {
+		n0 += r.Int63n(B)
+	}
+	if n0 > 44 {
+		n0 = 44
+	}
+	for i := int64(0); i < n0; i++ {
+		c.src0 = append(c.src0, draw())
+	}
+	c.dest0Kind = "empty"
+	if d0 > 0 {
+		c.dest0Kind = "partial"
+		for i := int64(0); i < d0; i++ {
+			e := c.src0[i]
+			c.dest0 = append(c.dest0, &trillian.LogLeaf{LeafIndex: i, LeafValue: e.li, ExtraData: e.xd, LeafIdentityHash: idHashRef(c.idf, i, e)})
+		}
+		c.size0 = d0
+	}
+	// page cap
+	pcap := int64(0)
+	switch k := r.Intn(8); {
+	case k < 3 && B > 1:
+		pcap = B - 1
+		c.genTags = append(c.genTags, "pagecap:batch-1")
+	case k == 3 && B > 2:
+		pcap = 1 + r.Int63n(B-1)
+		c.genTags = append(c.genTags, "pagecap:other")
+	}
+	class := pick(r, "fatal", "fatal", "quota", "transient")
+	where := pick(r, "first", "middle", "last", "every")
+	c.genTags = append(c.genTags, "gen:per-batch", "designated:"+class+"@"+where)
+	npass := 1
+	if c.continuous {
+		npass = 1 + r.Intn(3)
+	}
+	target := r.Intn(npass)
+	cur, expS := n0, d0
+	quota := func() []dreply {
+		var sc []dreply
+		for j, m := 0, 1+r.Intn(3); j < m; j++ {
+			sc = append(sc, dreply{basic: "code", code: int(codes.ResourceExhausted)})
+		}
+		return sc
+	}
+	fatal := func() []dreply {
+		var sc []dreply
+		if r.Intn(3) == 0 {
+			sc = quota()
+		}
+		if r.Intn(6) == 0 {
+			return append(sc, dreply{basic: "nil"})
+		}
+		return append(sc, dreply{basic: "code", code: int(fatalCodes[r.Intn(len(fatalCodes))])})
+	}
+	for p := 0; p < npass; p++ {
+		ps := blankPass()
+		if p > 0 {
+			for i, g := int64(0), B+r.Int63n(2*B+1); i < g && cur < 60; i++ {
+				ps.grow = append(ps.grow, draw())
+				cur++
+			}
+		}
+		if pcap > 0 {
+			pageCap(ps, pcap, cur)
+		}
+		// the positions at which requests of this pass start: (get-entries start, first of its range?)
+		type posn struct {
+			at    int64
+			first bool
+		}
+		var at []posn
+		for q := expS; q < cur; q += B {
+			e := q + B
+			if e > cur {
+				e = cur
+			}
+			for x := q; x < e; {
+				at = append(at, posn{x, x == q})
+				step := e - x
+				if pcap > 0 && pcap < step {
+					step = pcap
+				}
+				x += step
+			}
+		}
+		apply := func(i int, what string) (stop bool) {
+			switch what {
+			case "quota":
+				ps.replies[at[i].at] = quota()
+			case "transient":
+				ps.srcerr[at[i].at] = 1 + r.Int63n(3)
+			case "fatal":
+				ps.replies[at[i].at] = fatal()
+				return true
+			}
+			return false
+		}
+		stopAt := -1
+		mid := len(at) - 1
+		if len(at) > 2 {
+			mid = 1 + r.Intn(len(at)-2)
+		}
+		for i := range at {
+			what := "ok"
+			if p == target {
+				hit := where == "every" || (where == "first" && i == 0) || (where == "last" && i == len(at)-1) ||
+					(where == "middle" && i == mid)
+				if hit {
+					what = class
+				}
+			}
+			if what == "ok" {
+				switch k := r.Intn(100); {
+				case k < 7:
+					what = "quota"
+				case k < 13:
+					what = "transient"
+				case k < 17:
+					what = "fatal"
+				}
+			}
+			if apply(i, what) && stopAt < 0 {
+				stopAt = i
+			}
+		}
+		c.scripts = append(c.scripts, ps)
+		if stopAt >= 0 {
+			// one fetcher, one submitter: everything below the refused batch is stored, the run restarts there
+			// (RunWhenMaster, continuous) or ends (otherwise; the remaining scripts are then not used)
+			expS = at[stopAt].at
+			if c.continuous && c.ep == "RunWhenMaster" && p == npass-1 && r.Intn(4) != 0 {
+				npass++ // the restart gets a pass of its own, with its own draws
+			}
+		} else {
+			expS = cur
+		}
+	}
+	if c.continuous && r.Intn(5) != 0 {
+		c.scripts = append(c.scripts, settlingPass(r, draw, c.batch+1))
+		c.genTags = append(c.genTags, "script:settling-pass")
+	}
+	c.scripts = append(c.scripts, terminalPass())
 	return c
 }
 
@@ -1178,11 +1434,16 @@ Local Open Scope Z_scope.
 		addSha(b)
 	}
 	fmt.Fprintf(&hdr, "Definition sha_tab : list (bytes * bytes) := %s.\n", lib.List(shaTab))
-	w := lib.NewWriter(hdr.String(), 60)
-	n := lib.Count(300, 5000)
+	w := lib.NewWriter(hdr.String(), 40)
+	n := lib.Count(450, 7500)
 
 	for id := 0; id < n; id++ {
-		spec := genCase(r, pool, id)
+		var spec *caseSpec
+		if id%3 == 2 {
+			spec = genPerBatch(r, pool, id)
+		} else {
+			spec = genCase(r, pool, id)
+		}
 		s, out := runCase(t, spec)
 		emit(w, nm, spec, s, out)
 	}
@@ -1225,6 +1486,9 @@ func emit(w *lib.Writer, nm *namer, spec *caseSpec, s *sim, out outcome) {
 			tagset[x] = true
 			tags = append(tags, x)
 		}
+	}
+	for _, g := range spec.genTags {
+		tag(g)
 	}
 	if spec.nocheck {
 		tag("cfg:no-consistency-check")
@@ -1345,6 +1609,112 @@ func emit(w *lib.Writer, nm *namer, spec *caseSpec, s *sim, out outcome) {
 				fail("gap: index %d missing after a run in which no pass was aborted (range [%d,%d))", i, lo, hi)
 				break
 			}
+		}
+	}
+	// ---- what the run says about itself, whatever the world injected.  The block above speaks only about
+	// runs in which no pass was aborted; the statements below hold for every run: each is a reading of
+	// "restarts, retries and errors never cause gaps" on one observable event (Run returning nil, a pass
+	// resuming above an index, a pass fetching nothing although the source is ahead, the controller going
+	// on after a pass that nothing disturbed, a fatal reply while the caller's context is live).
+	firstMissing := func(have func(int64) bool, lo, hi int64) int64 {
+		for i := lo; i < hi; i++ {
+			if !have(i) {
+				return i
+			}
+		}
+		return -1
+	}
+	atEnd := func(i int64) bool { return s.dest[i] != nil }
+	gateRefused := func(p *obsPass) bool { return p.cons != nil && !p.goodCons }
+	// nothing the property allows to end a pass early happened in it
+	undisturbed := func(p *obsPass) bool {
+		return p.rootOK && p.sthSize >= 0 && !gateRefused(p) && !p.abortFault && !p.malformedServed && !p.acted
+	}
+	because := func(p *obsPass) string {
+		if len(p.fatalLive) > 0 {
+			return "; in that pass the " + p.fatalLive[0] + " while the caller's context was live"
+		}
+		return ""
+	}
+	if np := len(s.passes); np > 0 && !spec.continuous {
+		p := s.passes[np-1] // one-shot: the pass of the Run call whose result is the result of the run
+		if out.final == "OFNil" {
+			tag("claim:run-returned-nil")
+			if p.sthSize >= 0 {
+				lo, hi := spec.start, spec.end
+				if lo < 0 {
+					lo = p.ts
+				}
+				if hi == 0 || hi > p.sthSize {
+					hi = p.sthSize
+				}
+				if m := firstMissing(atEnd, lo, hi); m >= 0 {
+					fail("gap: Run returned nil (pass %d, destination size %d, STH size %d), index %d of its range [%d,%d) is not stored%s", np-1, p.ts, p.sthSize, m, lo, hi, because(p))
+				}
+			}
+			if len(p.fatalLive) > 0 {
+				fail("fatal: %s while the caller's context was live, and Run returned nil (pass %d)", p.fatalLive[0], np-1)
+			}
+		} else if out.final == "OFErr" && undisturbed(p) {
+			fail("complete: pass %d of a one-shot run met no fault (quota replies and source errors at most), Run returned an error: %s", np-1, out.errS)
+		}
+	}
+	if spec.continuous {
+		for pi, p := range s.passes {
+			have := func(i int64) bool { return p.stored0[i] }
+			// With one fetcher the lowest range is requested first, so the lowest get-entries start is where
+			// the pass resumes; with several, a worker holding the lowest range may see a cancellation (caused
+			// by another worker's batch) before it sends its request, so the resume point is only observed in
+			// a pass that nothing cut short.
+			resumeSeen := len(p.get) > 0 && (spec.fetchers == 1 || (!p.abortFault && !p.malformedServed && !p.acted))
+			if resumeSeen {
+				// the pass resumes at b: it will not fetch anything below b, now or (a later pass starts
+				// even higher) ever, unless an error makes it start over
+				b := p.get[0][0]
+				for _, g := range p.get {
+					if g[0] < b {
+						b = g[0]
+					}
+				}
+				if b > p.ts {
+					tag("claim:resumes-above-destination-size")
+				}
+				if m := firstMissing(have, 0, b); m >= 0 {
+					why := ""
+					if pi > 0 {
+						why = because(s.passes[pi-1])
+					}
+					fail("gap: pass %d resumes fetching at index %d (destination size %d) although index %d is not stored%s", pi, b, p.ts, m, why)
+				}
+			} else if p.rootOK && p.sthSize > p.ts && !gateRefused(p) && len(p.get) == 0 && len(p.stream) == 0 {
+				// the source is ahead of the destination tree and the pass fetches nothing: it holds [ts, n) for stored
+				tag("claim:idle-with-source-ahead")
+				if m := firstMissing(have, p.ts, p.sthSize); m >= 0 {
+					why := ""
+					if pi > 0 {
+						why = because(s.passes[pi-1])
+					}
+					fail("gap: pass %d fetches nothing (destination size %d, STH size %d) although index %d is not stored%s", pi, p.ts, p.sthSize, m, why)
+				}
+			}
+			if pi+1 < len(s.passes) {
+				next := s.passes[pi+1]
+				if undisturbed(p) {
+					// nothing disturbed the pass and the controller went on: everything below its STH is stored
+					tag("claim:went-on-after-undisturbed-pass")
+					if m := firstMissing(func(i int64) bool { return next.stored0[i] }, 0, p.sthSize); m >= 0 {
+						fail("gap: pass %d met no fault (destination size %d, STH size %d) and the controller went on, index %d is not stored", pi, p.ts, p.sthSize, m)
+					}
+				}
+				if len(p.fatalLive) > 0 && spec.ep == "Run" {
+					fail("fatal: %s while the caller's context was live, continuous Run went on with pass %d instead of returning the error", p.fatalLive[0], pi+1)
+				}
+			}
+		}
+	}
+	for _, p := range s.passes {
+		if len(p.fatalLive) > 0 {
+			tag("fired:fatal-with-live-context")
 		}
 	}
 	if out.final == "OFPanic" || out.final == "OFHang" {
